@@ -5,12 +5,8 @@
 //!   verif-pbt selftest                       oracle self-tests only
 //!   verif-pbt list
 
-mod adapt;
-mod engine;
-mod props;
-mod recipes;
-
-use engine::{Ctx, Tier};
+use verif_pbt::engine::{self, Ctx, Tier};
+use verif_pbt::{fuzz_entry, props};
 use serde_json::{json, Value};
 use std::path::{Path, PathBuf};
 
@@ -265,6 +261,131 @@ fn run(property: &str, tier: Tier) -> i32 {
     0
 }
 
+/// writes the committed seed corpus of the libFuzzer targets (a pure function of the model)
+fn gen_corpus() {
+    use verif_pbt::adapt::{G1m, G2m};
+    use verif_pbt::props::c04::{build_bytes, BaseR, CoordVal, DecCase, Edit};
+    use verif_pbt::recipes::PointR;
+    let write = |target: &str, name: &str, data: &[u8]| {
+        let dir = props::corpus_dir(target);
+        let _ = std::fs::create_dir_all(&dir);
+        let _ = std::fs::write(dir.join(name), data);
+    };
+    // decode
+    let bases: Vec<(&str, BaseR)> = vec![
+        ("gen", BaseR::Point(PointR::Gen)),
+        ("identity", BaseR::Point(PointR::Identity)),
+        ("sub3", BaseR::Point(PointR::Sub(3))),
+        ("walk", BaseR::Walk(2, 12345)),
+        ("full", BaseR::Point(PointR::Full(1))),
+        ("small0", BaseR::Point(PointR::SmallOrder(0, 0))),
+        ("small1", BaseR::Point(PointR::SmallOrder(1, 0))),
+        ("small2", BaseR::Point(PointR::SmallOrder(2, 1))),
+        ("small3", BaseR::Point(PointR::SmallOrder(3, 0))),
+        ("small4", BaseR::Point(PointR::SmallOrder(4, 2))),
+        ("mixed", BaseR::Point(PointR::Mixed(1, 0, 4))),
+        ("rescaled-gen", BaseR::Rescaled(PointR::Gen, verif_pbt::recipes::FeR::Two)),
+        ("rescaled-sub", BaseR::Rescaled(PointR::Sub(5), verif_pbt::recipes::FeR::Small(7))),
+    ];
+    let edits: Vec<(&str, Vec<Edit>)> = vec![
+        ("", vec![]),
+        ("-flags5", vec![Edit::Flags(5)]),
+        ("-flags7", vec![Edit::Flags(7)]),
+        ("-xq", vec![Edit::Coord(0, CoordVal::QPlus(0))]),
+        ("-lastq", vec![Edit::Coord(3, CoordVal::QPlus(1))]),
+        ("-noroot", vec![Edit::XNoRoot(7)]),
+        ("-xother", vec![Edit::XOther(9)]),
+        ("-flipsort", vec![Edit::FlipSort]),
+    ];
+    for fmt in 0u8..4 {
+        for (bn, b) in &bases {
+            for (en, e) in &edits {
+                if !en.is_empty() && !["gen", "identity", "full"].contains(bn) {
+                    continue;
+                }
+                let c = DecCase { fmt, base: b.clone(), edits: e.clone() };
+                let bytes = if fmt < 2 { build_bytes::<G1m>(&c) } else { build_bytes::<G2m>(&c) };
+                let mut data = vec![fmt];
+                data.extend_from_slice(&bytes);
+                write("decode", &format!("fmt{}-{}{}", fmt, bn, en), &data);
+                // serdes seeds from the same images: point types 2..=5
+                let comp = fmt % 2 == 0;
+                for (ty, g1) in [(2u8, true), (3, false), (4, true), (5, false)] {
+                    if g1 != (fmt < 2) {
+                        continue;
+                    }
+                    let mut s = vec![ty, comp as u8];
+                    s.extend_from_slice(&bytes);
+                    write("serdes", &format!("ty{}-{}-{}{}", ty, if comp { "c" } else { "u" }, bn, en), &s);
+                    if en.is_empty() && *bn == "gen" {
+                        let mut t = vec![ty, (comp as u8) | 2];
+                        t.extend_from_slice(&bytes[..bytes.len() - 5]);
+                        write("serdes", &format!("ty{}-{}-truncated", ty, if comp { "c" } else { "u" }), &t);
+                        let mut t = vec![ty, (!comp) as u8];
+                        t.extend_from_slice(&bytes);
+                        write("serdes", &format!("ty{}-{}-wrongflag", ty, if comp { "c" } else { "u" }), &t);
+                    }
+                }
+            }
+        }
+    }
+    // Fr / Fq12 streams
+    let mut w = refmodel::curve::Words(42);
+    let mut rnd = |n: usize| -> Vec<u8> {
+        let mut v = vec![];
+        while v.len() < n {
+            v.extend_from_slice(&w.next().to_le_bytes());
+        }
+        v.truncate(n);
+        v
+    };
+    let mut fr = rnd(32);
+    fr[0] &= 0x3f;
+    let mut s = vec![0u8, 0];
+    s.extend_from_slice(&fr);
+    write("serdes", "fr-valid", &s);
+    let mut s = vec![0u8, 2];
+    s.extend_from_slice(&[0xff; 32]);
+    write("serdes", "fr-nonreduced", &s);
+    let mut f12 = vec![];
+    for _ in 0..12 {
+        let mut c = rnd(48);
+        c[0] &= 0x0f;
+        f12.extend_from_slice(&c);
+    }
+    let mut s = vec![1u8, 4];
+    s.extend_from_slice(&f12);
+    write("serdes", "fq12-valid", &s);
+    let mut s = vec![1u8, 0];
+    let mut bad = f12.clone();
+    bad[48 * 7] = 0xff;
+    s.extend_from_slice(&bad);
+    write("serdes", "fq12-nonreduced-coefficient7", &s);
+    // expand
+    for (i, (e, len, dst, msg)) in [(0u8, 32u16, &b"QUUX-V01-CS02-with-expander"[..], &b""[..]), (0, 128, b"QUUX-V01-CS02-with-expander", b"abc"), (1, 64, b"dst", b"abcdef0123456789"), (2, 48, b"", b"msg"), (3, 255, b"QUUX", b"q128_qqqqqqqqqqqqqqqqqqqqqqqqqqqq"), (0, 8161, b"d", b"too long for 255 blocks")]
+        .iter()
+        .enumerate()
+    {
+        let mut s = vec![*e];
+        s.extend_from_slice(&len.to_le_bytes());
+        s.push(dst.len() as u8);
+        s.extend_from_slice(dst);
+        s.extend_from_slice(msg);
+        write("expand", &format!("seed{}", i), &s);
+    }
+    // field
+    for sel in 0u8..8 {
+        let mut s = vec![sel];
+        s.extend_from_slice(&rnd(1200));
+        write("field", &format!("sel{}-uniform", sel), &s);
+        let mut s = vec![sel];
+        s.extend_from_slice(&vec![0xffu8; 1200]);
+        write("field", &format!("sel{}-allones", sel), &s);
+        write("field", &format!("sel{}-short", sel), &[sel, 1, 0, 1]);
+    }
+    println!("corpus written under {}", props::corpus_dir("").display());
+}
+
 fn main() {
     engine::install_panic_hook();
     let args: Vec<String> = std::env::args().collect();
@@ -303,6 +424,25 @@ fn main() {
                 2
             }
         },
+        Some("gen-corpus") => {
+            gen_corpus();
+            0
+        }
+        Some("replay-bytes") => {
+            // verif-pbt replay-bytes <target> <file>: run one raw input through the byte-level entry
+            let target = args.get(2).cloned().unwrap_or_default();
+            let data = std::fs::read(args.get(3).cloned().unwrap_or_default()).unwrap_or_default();
+            match fuzz_entry::run(&target, &data) {
+                Ok(()) => {
+                    println!("replay-bytes {}: holds", target);
+                    0
+                }
+                Err(m) => {
+                    println!("replay-bytes {}: FAILS: {}", target, m);
+                    1
+                }
+            }
+        }
         Some("list") => {
             for id in props::ids() {
                 let d = props::get(id).unwrap();
